@@ -165,7 +165,7 @@ fn c06_case(t: &Target, w: &dyn AnyWriter, idx: u64, all: Bufs, site: &str, l: &
 
 pub fn c17(ctx: &mut Ctx) {
     common_setup(ctx, "C17: writers define every byte they claim and touch nothing else");
-    ctx.bound("prefill patterns", "(7i+3)&0xFF and its complement, position dependent");
+    ctx.bound("prefill patterns", "(7i+3)&0xFF and its complement, position dependent; the image itself with the bytes at all 16 sets of residues mod 4 inverted (3 sets above 128 bytes), with all but the first and last byte inverted, with one byte inverted");
     let spaces = all_target_spaces(ctx.tier, ctx.seed);
     run_targets(ctx, spaces, |t, idx, all, l| {
         let site = t.builder();
@@ -283,6 +283,49 @@ fn c17_case(t: &Target, w: &dyn AnyWriter, idx: u64, all: Bufs, site: &str, l: &
                     l.violation(format!("failed-write-modified-buffer:{}", site), || t.short(), || format!("buffer {}: write_into returned Err({:?}) but byte {} was modified", cap, e, i));
                 } else {
                     l.hit("failure-checked");
+                }
+            }
+        }
+    }
+    // buffers that already hold part of the right answer: the image itself with the bytes at chosen positions
+    // inverted (positions by residue modulo 4 - all sixteen residue sets for small packets, three for larger ones -,
+    // everything but the first and last byte, and a single byte that moves with the case index). A writer that
+    // skips work because the buffer "already looks right" at the places it looks at leaves the inverted bytes behind.
+    if let Ok(n) = size {
+        if n > 0 && n <= 4096 {
+            let mut img = crate::engine::place::OutBuf::new(n, pat_a);
+            if let Ok(Ok(m)) = guard::catch(|| w.write(&mut img)) {
+                if m == n {
+                    let img: Vec<u8> = img.into_vec();
+                    let sets: &[u8] = if n <= 128 { &[0, 1, 2, 3, 4, 5, 6, 7, 8, 9, 10, 11, 12, 13, 14, 15] } else { &[0b1001, 0b0001, 0b1000] };
+                    let single = (idx as usize).wrapping_mul(7) % n;
+                    let mut prefills: Vec<(String, Box<dyn Fn(usize) -> bool>)> = Vec::new();
+                    for &k in sets {
+                        prefills.push((format!("bytes at residues {:04b} (mod 4) already right", k), Box::new(move |i| k >> (i % 4) & 1 == 1)));
+                    }
+                    prefills.push(("first and last byte already right".into(), Box::new(move |i| i == 0 || i + 1 == n)));
+                    prefills.push((format!("every byte but byte {} already right", single), Box::new(move |i| i != single)));
+                    for (what, keep) in prefills {
+                        let mut b = crate::engine::place::OutBuf::new(n, |i| if keep(i) { img[i] } else { !img[i] });
+                        l.transitions += 1;
+                        match guard::catch(|| w.write(&mut b)) {
+                            Err(pi) => {
+                                l.subject_panic(&format!("write:{}", site), &pi, || format!("{} into a buffer that holds part of its image", t.short()));
+                                return;
+                            }
+                            Ok(r) => {
+                                if r != Ok(n) {
+                                    l.violation(format!("result-depends-on-buffer-contents:{}", site), || t.short(), || format!("buffer of {} bytes with {}: {:?}", n, what, r));
+                                    return;
+                                }
+                                if let Some(i) = (0..n).find(|&i| b[i] != img[i]) {
+                                    l.violation(format!("claimed-byte-not-written:{}", site), || t.short(), || format!("buffer of {} bytes with {}: byte {} keeps the buffer's previous content ({:02x}, the image has {:02x}); image {}", n, what, i, b[i], img[i], hex_short(&img)));
+                                    return;
+                                }
+                            }
+                        }
+                    }
+                    l.hit("partly-right-buffers-checked");
                 }
             }
         }
